@@ -1,6 +1,7 @@
 // Replay runner for C20. `position.rs` of the working tree is compiled verbatim as a module of this
 // binary (its #[cfg(test)] module cut off); dora-parser's compute_line_starts and Span are the real ones.
 mod docsym;
+mod wssym;
 mod position;
 use dora_parser::compute_line_starts;
 use lsp_types::Position;
@@ -124,6 +125,25 @@ fn check_symbol(sym: &lsp_types::DocumentSymbol, parent: Option<&lsp_types::Rang
     }
     Ok(n)
 }
+/// workspace symbols: every reported location range is ordered and inside the document; no panic
+fn check_ws_symbols(text: &str) -> Option<String> {
+    let owned = std::sync::Arc::new(text.to_string());
+    let syms = match std::panic::catch_unwind(|| wssym::vx_scan_ws(owned)) {
+        Ok(s) => s,
+        Err(_) => return Some(format!("workspace symbol scan panicked at {}", LAST_PANIC.with(|c| c.borrow().clone()))),
+    };
+    let ls = compute_line_starts(text);
+    let end = utf8_offset_to_utf16_position(text, &ls, text.len() as u32);
+    for s in syms.iter() {
+        if let lsp_types::OneOf::Left(loc) = &s.location {
+            let r = &loc.range;
+            if !pos_le(&r.start, &r.end) || !pos_le(&r.end, &end) {
+                return Some(format!("workspace symbol {:?}: range ({},{})-({},{}) not inside the document (end ({},{}))", s.name, r.start.line, r.start.character, r.end.line, r.end.character, end.line, end.character));
+            }
+        }
+    }
+    None
+}
 /// None = fine; Some(what) = violation
 fn check_symbols(text: &str) -> Option<String> {
     let owned = std::sync::Arc::new(text.to_string());
@@ -168,6 +188,13 @@ fn main() {
         for s in docsym::vx_scan(std::sync::Arc::new(t)).iter() { dump(s, 0); }
         return;
     }
+    if args.len() >= 3 && args[1] == "replay-ws-symbols" {
+        let t = from_hex(&args[2]);
+        match check_ws_symbols(&t) {
+            Some(w) => { println!("STILL FAILS on the real code: text {:?}: {}", t, w); std::process::exit(1) }
+            None => { println!("text passes on the real code"); std::process::exit(0) }
+        }
+    }
     if args.len() >= 3 && args[1] == "replay-symbols" {
         let t = from_hex(&args[2]);
         match check_symbols(&t) {
@@ -202,7 +229,17 @@ fn main() {
     }
     let mut rng = Rng(seed.wrapping_mul(0x9E3779B97F4A7C15) | 1);
     let mut sym_tried = 0u64;
+    let mut ws_tried = 0u64;
     while t0.elapsed() < budget {
+        // every 16th case: a program-like text through the workspace-symbol scan (parses the standard library too: ~slow)
+        if tried % 16 == 15 {
+            let n = [1usize, 2, 4, 9, 25][rng.below(5)];
+            let t = gen_code(&mut rng, n);
+            tried += 1;
+            ws_tried += 1;
+            if let Some(w) = check_ws_symbols(&t) { println!("{{\"found\":true,\"tried\":{},\"kind\":\"ws-symbols\",\"text_hex\":\"{}\",\"what\":{:?}}}", tried, to_hex(&t), w); return; }
+            continue;
+        }
         // every 4th case: a program-like text through the document-symbol scan
         if tried % 4 == 3 {
             let n = [1usize, 2, 4, 9, 25][rng.below(5)];
@@ -217,5 +254,5 @@ fn main() {
         tried += 1;
         if let Some(w) = check_text(&t) { println!("{{\"found\":true,\"tried\":{},\"text_hex\":\"{}\",\"what\":{:?}}}", tried, to_hex(&t), w); return; }
     }
-    println!("{{\"found\":false,\"tried\":{},\"exhaustive_small\":{},\"symbol_scans\":{}}}", tried, all.len(), sym_tried);
+    println!("{{\"found\":false,\"tried\":{},\"exhaustive_small\":{},\"symbol_scans\":{},\"workspace_scans\":{}}}", tried, all.len(), sym_tried, ws_tried);
 }
